@@ -32,6 +32,12 @@ type Config struct {
 	MaxSim    time.Duration
 	HotMod    int // >0: sites with id % HotMod == HotRem always pre-empt
 	HotRem    int
+	// Spawn lag (delay injection): after an instrumented `go` statement whose site is selected
+	// ((hash(site)^SpawnSalt) % SpawnMod == 0) the parent is not scheduled again for 1<<k scheduler
+	// steps, k drawn below SpawnLag, or until nothing else can run: the child overtakes its parent.
+	SpawnLag  int
+	SpawnMod  int
+	SpawnSalt int
 	Horizon   time.Duration // idle for this long with nothing enabled => deadlock
 	LivelockSteps int64     // this many scheduler steps without the simulated clock advancing => livelock
 	NoProgressYields int64  // this many yield points passed without any progress event (bytes moved, log events, task start/end, clock) => livelock
@@ -60,6 +66,7 @@ type Result struct {
 	Switches    int64
 	Yields      int64
 	Parks       int64
+	SpawnLags   int64 // times a parent was held behind the goroutine it had just started
 	SimTime     time.Duration
 	Tasks       int
 	Deadlock    bool
@@ -104,6 +111,7 @@ type Task struct {
 	gid     int64
 	daemon  bool
 	sinceParked int64
+	holdUntil   int64 // scheduler step before which the task is not chosen (delay injection)
 }
 
 func (t *Task) Name() string { return t.name }
@@ -371,6 +379,7 @@ func (s *Sim) loop(main *Task) {
 		enabled = enabled[:0]
 		var quiescers []*Task
 		var earliest time.Time
+		var held *Task // the held task that is due first
 		// compact finished tasks away (keeps creation order)
 		k := 0
 		for _, t := range s.tasks {
@@ -392,6 +401,12 @@ func (s *Sim) loop(main *Task) {
 				continue
 			}
 			if t.cond == nil && t.wakeAt.IsZero() {
+				if t.holdUntil > s.steps {
+					if held == nil || t.holdUntil < held.holdUntil {
+						held = t
+					}
+					continue
+				}
 				enabled = append(enabled, t)
 				continue
 			}
@@ -421,6 +436,11 @@ func (s *Sim) loop(main *Task) {
 				}
 			}
 			s.wakeTimes = s.wakeTimes[:k]
+		}
+		if len(enabled) == 0 && held != nil {
+			// nothing else can run: the hold ends early
+			held.holdUntil = 0
+			enabled = append(enabled, held)
 		}
 		if len(enabled) == 0 {
 			// quiescent instant
@@ -738,6 +758,19 @@ func GoSite(site int32, fn func()) {
 		return
 	}
 	Go(SiteName(site), fn)
+	s := active.Load()
+	if s == nil || s.cfg.SpawnLag <= 0 || s.cfg.SpawnMod <= 0 || s.shutdown.Load() {
+		return
+	}
+	if (int(uint32(site)*2654435761>>16)^s.cfg.SpawnSalt)%s.cfg.SpawnMod != 0 {
+		return
+	}
+	t := s.enter()
+	t.holdUntil = s.steps + int64(1)<<s.rng[StreamSched].IntN(s.cfg.SpawnLag)
+	s.res.SpawnLags++
+	t.siteID = site
+	t.site = ""
+	s.park(t, nil, time.Time{}, false)
 }
 
 // WaitCond parks the caller until pred() holds. pred is evaluated by the
